@@ -18,6 +18,7 @@ mod miri_impl {
     impl ByteArena {
         pub fn new(data: &[u8], _place: Place, _align: usize) -> ByteArena { ByteArena { data: data.to_vec().into_boxed_slice() } }
         pub fn bytes<'a>(&'a self) -> &'a [u8] { &self.data }
+        pub fn revoke(&self, _on: bool) {}
     }
     pub struct HeaderArena { slots: Box<[MaybeUninit<Header<'static>>]> }
     impl HeaderArena {
@@ -59,6 +60,23 @@ pub enum Place {
     StartGuard,
     /// at `32-aligned base + align`, no guard adjacency
     Align,
+    /// the buffer starts `align` bytes before a page boundary, both pages mapped (a vector block of the
+    /// buffer straddles the page boundary); header array as for EndGuard
+    Straddle,
+    /// the buffer ENDS `align` bytes before the unmapped page (a read of up to `align` bytes past the end stays
+    /// in mapped memory, one of more bytes faults); header array as for EndGuard
+    EndGap,
+    /// buffer and header array share one mapping and touch: buffer end == array start
+    JointBufHdr,
+    /// array end == buffer start
+    JointHdrBuf,
+}
+
+thread_local! {
+    /// capacity of the header array that the next Joint* buffer arena has to make room for
+    pub static JOINT_CAP: std::cell::Cell<usize> = std::cell::Cell::new(0);
+    /// where the next non-empty HeaderArena is to be placed (set by a Joint* buffer arena)
+    pub static NEXT_HDR_AT: std::cell::Cell<usize> = std::cell::Cell::new(0);
 }
 
 #[cfg(not(miri))]
@@ -113,13 +131,30 @@ pub struct ByteArena {
 #[cfg(not(miri))]
 impl ByteArena {
     pub fn new(data: &[u8], place: Place, align: usize) -> ByteArena {
-        let pages = (data.len() + 64 + PAGE - 1) / PAGE + 1;
+        let hsz = std::mem::size_of::<Header<'static>>();
+        let hbytes = JOINT_CAP.with(|c| c.get()) * hsz;
+        let pages = (data.len() + hbytes + 64 + PAGE - 1) / PAGE + 3;
         let r = Region::new(pages);
         let ptr = match place {
             // SAFETY: stays inside the usable pages
             Place::EndGuard => unsafe { r.hi().sub(data.len()) },
             Place::StartGuard => r.lo(),
             Place::Align => unsafe { r.lo().add(32 + (align % 32)) },
+            // SAFETY: at least three usable pages
+            Place::Straddle => unsafe { r.lo().add(PAGE).sub(align % PAGE) },
+            Place::EndGap => unsafe { r.hi().sub(data.len() + align % 64) },
+            Place::JointBufHdr => {
+                // array at the end guard (its size is a multiple of its alignment), buffer right in front of it
+                let h = unsafe { r.hi().sub(hbytes) };
+                NEXT_HDR_AT.with(|c| c.set(h as usize));
+                unsafe { h.sub(data.len()) }
+            }
+            Place::JointHdrBuf => {
+                // buffer start 8-aligned, array right in front of it
+                let b = ((r.hi() as usize - data.len()) & !7usize) as *mut u8;
+                NEXT_HDR_AT.with(|c| c.set(b as usize - hbytes));
+                b
+            }
         };
         // SAFETY: `data.len()` bytes are available at `ptr`
         unsafe { std::ptr::copy_nonoverlapping(data.as_ptr(), ptr, data.len()) };
@@ -128,6 +163,14 @@ impl ByteArena {
     pub fn bytes<'a>(&'a self) -> &'a [u8] {
         // SAFETY: initialised in `new`
         unsafe { std::slice::from_raw_parts(self.ptr, self.len) }
+    }
+    /// make the whole mapping inaccessible (`true`) / accessible again: a buffer the caller has given up
+    pub fn revoke(&self, on: bool) {
+        // SAFETY: our own mapping; nobody dereferences into it while it is revoked (the harness only does
+        // address arithmetic on stale fields)
+        unsafe {
+            assert_eq!(mprotect(self._r.base.add(PAGE) as *mut c_void, self._r.len - 2 * PAGE, if on { PROT_NONE } else { PROT_RW }), 0);
+        }
     }
 }
 
@@ -143,6 +186,12 @@ impl HeaderArena {
     pub fn new(cap: usize, place: Place) -> HeaderArena {
         let sz = std::mem::size_of::<Header<'static>>();
         let bytes = cap * sz;
+        let at = NEXT_HDR_AT.with(|c| c.get());
+        if at != 0 && cap > 0 {
+            // inside the mapping of a Joint* buffer arena, which outlives this array in every caller
+            NEXT_HDR_AT.with(|c| c.set(0));
+            return HeaderArena { _r: Region::new(0), ptr: at as *mut MaybeUninit<Header<'static>>, cap };
+        }
         let pages = (bytes + PAGE - 1) / PAGE + 1;
         let r = Region::new(pages);
         let p = match place {
